@@ -36,6 +36,14 @@ Fragments(n) ==
     { SubSeq(n, 1, k) : k \in {0, MinN(1, Len(n)), MinN(2, Len(n)), Len(n) \div 2, Len(n)} }
     \cup { UpperStr(SubSeq(n, 1, MinN(3, Len(n))), 1), EveryOther(n, 1, 7), "zzq" }
 
+(* account names are typed segment by segment: the fragments that end right after a colon, and one character later,
+   with the parent as written and in the other letter case *)
+ColonCuts(n) ==
+    LET ks == { k \in 1..Len(n) : SubSeq(n, k, k) = ":" } IN
+    { SubSeq(n, 1, k) : k \in ks } \cup { SubSeq(n, 1, k + 1) : k \in { j \in ks : j < Len(n) } }
+    \cup { UpperStr(SubSeq(n, 1, k), 1) : k \in ks } \cup { LowerStr(SubSeq(n, 1, k), 1) : k \in ks }
+HasBlankInParent(n) == \E i, j \in 1..Len(n) : i < j /\ SubSeq(n, i, i) = " " /\ SubSeq(n, j, j) = ":"
+
 (* up to three names of a set, chosen deterministically: the least, the greatest and one in between by length *)
 Pick3(S) ==
     IF Cardinality(S) <= 3 THEN S
@@ -49,7 +57,8 @@ ProbesFor(kind, S, counts, extra) ==
        fuzzy  |-> { n \in S : IsSubseqCI(q, n) },
        prefix |-> { n \in S : IsPrefixCI(q, n) },
        counts |-> { [name |-> n, n |-> counts[n]] : n \in S }] :
-         q \in UNION { Fragments(n) : n \in Pick3(S) } }
+         q \in UNION { Fragments(n) : n \in Pick3(S) }
+               \cup (IF kind = "account" THEN UNION { ColonCuts(n) : n \in Pick3(S) \cup { m \in S : HasBlankInParent(m) } } ELSE {}) }
 
 Probes(c) ==
     LET AN == AccountNames(c) PN == PayeeNames(c) CN == CommodityNames(c) T == TagNames(c)
